@@ -363,7 +363,10 @@ theorem secondPass_instr_ok {hasRegs : Bool} {st : EncState} {i : LInstr} {rest 
       exact ⟨raw, st1, raws1, rfl, hr, rfl⟩
     | err c => rw [hr] at h; cases h
     | panic p => rw [hr] at h; cases h
-  | err c => rw [he] at h; cases h
+  | err c =>
+    rw [he] at h
+    simp only at h
+    cases hr : secondPass hasRegs st rest <;> rw [hr] at h <;> cases h
   | panic p => rw [he] at h; cases h
 
 theorem gatherAux_instr_ok {hdr : Nat} {hasRegs : Bool} {off : Nat} {st : EncState} {seen : List String}
@@ -909,11 +912,63 @@ theorem gather_stmtOffsets_length (hdr : Nat) (hasRegs : Bool) : ∀ (code : Lis
       obtain ⟨g1, hg1, hgeq⟩ := gatherAux_free_ok h
       subst hgeq; simp [ih _ _ _ _ hg1]
 
-/-- the `assert_eq!(code.len(), stmt_offsets.len())` of `encode_labels` cannot fail: the only panic
-`encode_labels` can end in is the one of `encode_label` itself (EoSD STD, `index20`) -/
-theorem encodeLabelsAux_panic (mode : LabelMode) (labels : List LabelInfo) :
+/-- `encode_label` / the label lookup never panic, in any label mode (the EoSD STD `assert_eq!` on
+multiples of 20 was removed by the repair a68533f) -/
+theorem encodeLabelArgs_no_panic (mode : LabelMode) (labels : List LabelInfo) (cur : Nat) :
+    ∀ (as : List LArg) (q : String), encodeLabelArgs mode labels cur as ≠ .panic q := by
+  intro as
+  induction as with
+  | nil => intro q; simp [encodeLabelArgs]
+  | cons a as iha =>
+    intro q hq
+    simp only [encodeLabelArgs] at hq
+    cases ha : encodeLabelArg mode labels cur a with
+    | ok a' =>
+      rw [ha] at hq
+      simp only at hq
+      cases hr : encodeLabelArgs mode labels cur as with
+      | ok r => rw [hr] at hq; cases hq
+      | err c => rw [hr] at hq; cases hq
+      | panic q' => exact iha q' hr
+    | err c => rw [ha] at hq; cases hq
+    | panic q' =>
+      cases a with
+      | raw x => simp [encodeLabelArg] at ha
+      | loc d fs => simp [encodeLabelArg] at ha
+      | label n =>
+        simp only [encodeLabelArg] at ha
+        cases hl : lookupLabel labels n with
+        | none => rw [hl] at ha; cases ha
+        | some info => rw [hl] at ha; cases mode <;> simp [encodeLabel] at ha
+      | timeOf n =>
+        simp only [encodeLabelArg] at ha
+        cases hl : lookupLabel labels n with
+        | none => rw [hl] at ha; cases ha
+        | some info => rw [hl] at ha; cases ha
+
+theorem encodeLabelsStmt_no_panic (mode : LabelMode) (labels : List LabelInfo) (cur : Nat) (s : LStmt) (q : String) :
+    encodeLabelsStmt mode labels cur s ≠ .panic q := by
+  intro hs
+  cases s with
+  | instr i =>
+    obtain ⟨t, op, df, args⟩ := i
+    cases args with
+    | unknown b => simp [encodeLabelsStmt] at hs
+    | known abi args =>
+      simp only [encodeLabelsStmt] at hs
+      cases hr : encodeLabelArgs mode labels cur args with
+      | ok r => rw [hr] at hs; cases hs
+      | err c => rw [hr] at hs; cases hs
+      | panic q' => exact encodeLabelArgs_no_panic mode labels cur args q' hr
+  | label t n => simp [encodeLabelsStmt] at hs
+  | regAlloc d => simp [encodeLabelsStmt] at hs
+  | regFree d => simp [encodeLabelsStmt] at hs
+
+/-- the `assert_eq!(code.len(), stmt_offsets.len())` of `encode_labels` cannot fail, and nothing
+else in `encode_labels` can panic -/
+theorem encodeLabelsAux_no_panic (mode : LabelMode) (labels : List LabelInfo) :
     ∀ (code : List LStmt) (offs : List Nat) (p : String), offs.length = code.length →
-    encodeLabelsAux mode labels offs code = .panic p → mode = .index20 := by
+    encodeLabelsAux mode labels offs code ≠ .panic p := by
   intro code
   induction code with
   | nil =>
@@ -943,110 +998,14 @@ theorem encodeLabelsAux_panic (mode : LabelMode) (labels : List LabelInfo) :
         | ok r => rw [hr] at h; cases h
         | err c => rw [hr] at h; cases h
         | panic q => exact ih os q hl' hr
-      | panic q =>
-        -- a panic inside one statement comes from `encodeLabel`
-        cases mode with
-        | index20 => rfl
-        | absolute =>
-          exfalso
-          cases s with
-          | instr i =>
-            obtain ⟨t, op, df, args⟩ := i
-            cases args with
-            | unknown b => simp [encodeLabelsStmt] at hs
-            | known abi args =>
-              simp only [encodeLabelsStmt] at hs
-              have : ∀ (as : List LArg) (q : String), encodeLabelArgs .absolute labels o as ≠ .panic q := by
-                intro as
-                induction as with
-                | nil => intro q; simp [encodeLabelArgs]
-                | cons a as iha =>
-                  intro q hq
-                  simp only [encodeLabelArgs] at hq
-                  cases ha : encodeLabelArg .absolute labels o a with
-                  | ok a' =>
-                    rw [ha] at hq
-                    simp only at hq
-                    cases hr : encodeLabelArgs .absolute labels o as with
-                    | ok r => rw [hr] at hq; cases hq
-                    | err c => rw [hr] at hq; cases hq
-                    | panic q' => exact iha q' hr
-                  | err c => rw [ha] at hq; cases hq
-                  | panic q' =>
-                    cases a with
-                    | raw x => simp [encodeLabelArg] at ha
-                    | loc d fs => simp [encodeLabelArg] at ha
-                    | label n =>
-                      simp only [encodeLabelArg] at ha
-                      cases hl : lookupLabel labels n with
-                      | none => rw [hl] at ha; cases ha
-                      | some info => rw [hl] at ha; simp [encodeLabel] at ha
-                    | timeOf n =>
-                      simp only [encodeLabelArg] at ha
-                      cases hl : lookupLabel labels n with
-                      | none => rw [hl] at ha; cases ha
-                      | some info => rw [hl] at ha; cases ha
-              cases hr : encodeLabelArgs .absolute labels o args with
-              | ok r => rw [hr] at hs; cases hs
-              | err c => rw [hr] at hs; cases hs
-              | panic q' => exact this args q' hr
-          | label t n => simp [encodeLabelsStmt] at hs
-          | regAlloc d => simp [encodeLabelsStmt] at hs
-          | regFree d => simp [encodeLabelsStmt] at hs
-        | relative =>
-          exfalso
-          cases s with
-          | instr i =>
-            obtain ⟨t, op, df, args⟩ := i
-            cases args with
-            | unknown b => simp [encodeLabelsStmt] at hs
-            | known abi args =>
-              simp only [encodeLabelsStmt] at hs
-              have : ∀ (as : List LArg) (q : String), encodeLabelArgs .relative labels o as ≠ .panic q := by
-                intro as
-                induction as with
-                | nil => intro q; simp [encodeLabelArgs]
-                | cons a as iha =>
-                  intro q hq
-                  simp only [encodeLabelArgs] at hq
-                  cases ha : encodeLabelArg .relative labels o a with
-                  | ok a' =>
-                    rw [ha] at hq
-                    simp only at hq
-                    cases hr : encodeLabelArgs .relative labels o as with
-                    | ok r => rw [hr] at hq; cases hq
-                    | err c => rw [hr] at hq; cases hq
-                    | panic q' => exact iha q' hr
-                  | err c => rw [ha] at hq; cases hq
-                  | panic q' =>
-                    cases a with
-                    | raw x => simp [encodeLabelArg] at ha
-                    | loc d fs => simp [encodeLabelArg] at ha
-                    | label n =>
-                      simp only [encodeLabelArg] at ha
-                      cases hl : lookupLabel labels n with
-                      | none => rw [hl] at ha; cases ha
-                      | some info => rw [hl] at ha; simp [encodeLabel] at ha
-                    | timeOf n =>
-                      simp only [encodeLabelArg] at ha
-                      cases hl : lookupLabel labels n with
-                      | none => rw [hl] at ha; cases ha
-                      | some info => rw [hl] at ha; cases ha
-              cases hr : encodeLabelArgs .relative labels o args with
-              | ok r => rw [hr] at hs; cases hs
-              | err c => rw [hr] at hs; cases hs
-              | panic q' => exact this args q' hr
-          | label t n => simp [encodeLabelsStmt] at hs
-          | regAlloc d => simp [encodeLabelsStmt] at hs
-          | regFree d => simp [encodeLabelsStmt] at hs
+      | panic q => exact encodeLabelsStmt_no_panic mode labels o s q hs
 
-/-- `encode_labels` of a format other than EoSD-PoFV STD never panics -/
+/-- `encode_labels` never panics, for every format -/
 theorem encodeLabels_no_panic (hdr : Nat) (hasRegs : Bool) (mode : LabelMode) (code : List LStmt) (g : Gather) (p : String)
-    (hg : gatherLabelInfo hdr hasRegs code = .ok g) (hm : mode ≠ .index20) :
-    encodeLabels mode g code ≠ .panic p := by
-  intro h
-  exact hm (encodeLabelsAux_panic mode g.labels code g.stmtOffsets p
-    (gather_stmtOffsets_length hdr hasRegs code 0 none [] g hg) h)
+    (hg : gatherLabelInfo hdr hasRegs code = .ok g) :
+    encodeLabels mode g code ≠ .panic p :=
+  encodeLabelsAux_no_panic mode g.labels code g.stmtOffsets p
+    (gather_stmtOffsets_length hdr hasRegs code 0 none [] g hg)
 
 /-! ## what is false of the code that exists (witnesses, replayed on the implementation) -/
 
@@ -1055,13 +1014,14 @@ def narrowWitness : List LStmt := [
   .instr ⟨0, 68, 255, .known [.int .w1 false false true, .padding false, .padding false, .padding false] [.timeOf "endl"]⟩,
   .label 300 "endl"]
 
-/-- **The second pass can panic** ("we encoded this successfully before!"): the dummy 0 fits a
-one-byte parameter, the label's time 300 does not.  The dummy pass is size-faithful only in one
-direction (`dummy_same_size`): real encodes ⇒ dummy encodes. -/
-theorem second_pass_panics : lowerTail 8 true .absolute narrowWitness = .panic encodedBefore := by decide
+/-- **The second pass can fail** where the dummy pass succeeded: the dummy 0 fits a one-byte
+parameter, the label's time 300 does not.  The dummy pass is size-faithful only in one direction
+(`dummy_same_size`): real encodes ⇒ dummy encodes.  Before the repair ac7ec81 this was the panic
+"we encoded this successfully before!"; now the error of the second pass is reported. -/
+theorem second_pass_reports : lowerTail 8 true .absolute narrowWitness = .err "integer argument does not fit" := by decide
 
 /-- the dummy pass itself accepts the witness -/
-theorem second_pass_panics_gather_ok : (gatherLabelInfo 8 true narrowWitness).isOk = true := by decide
+theorem second_pass_reports_gather_ok : (gatherLabelInfo 8 true narrowWitness).isOk = true := by decide
 
 /-- TH06 STD `ins_0(@blob="00000000"); lbl: ins_3(offsetof(lbl));` -/
 def std06Witness : List LStmt := [
@@ -1069,9 +1029,10 @@ def std06Witness : List LStmt := [
   .label 0 "lbl",
   .instr ⟨0, 3, 255, .known [.int .w4 true false false, .padding true, .padding true] [.label "lbl"]⟩]
 
-/-- **`encode_label` of EoSD STD asserts** that the destination is a multiple of 20 bytes -/
-theorem index20_assert_fires :
-    lowerTail 8 false .index20 std06Witness = .panic "assertion `left == right` failed" := by decide
+/-- `encode_label` of EoSD STD no longer asserts that the destination is a multiple of 20 bytes
+(repair a68533f): lowering succeeds, the 16-byte instruction is rejected by the writer (C03) -/
+theorem index20_no_assert :
+    (lowerTail 8 false .index20 std06Witness).isOk = true := by decide
 
 /-- **The `Local` arm of `substitute_dummy_args` is wrong for float storage**: the dummy is an
 integer, `expect_float` panics.  Unreachable today only because `assign_registers` runs first
@@ -1554,17 +1515,17 @@ theorem second_pass_ok_aux (hdr : Nat) (hasRegs : Bool) (mode : LabelMode) (labe
 
 /-- **When the second pass cannot fail.**  If the dummy pass and `encode_labels` succeed and every
 `offsetof` / `timeof` argument of the script sits in a parameter that takes every `i32`, the
-second encoding pass succeeds: "we encoded this successfully before!" is true exactly under this
-condition (`second_pass_panics` is the counterexample without it). -/
+second encoding pass succeeds: "we encoded this successfully before!" (the assumption of the unrepaired code) is true exactly under this
+condition (`second_pass_reports` is the counterexample without it). -/
 theorem second_pass_ok_of_wide (hdr : Nat) (hasRegs : Bool) (mode : LabelMode) (code code' : List LStmt) (g : Gather)
     (hg : gatherLabelInfo hdr hasRegs code = .ok g) (hl : encodeLabels mode g code = .ok code')
     (hw : ∀ s ∈ code, wideStmt s = true) : ∃ raws, secondPass hasRegs none code' = .ok raws :=
   second_pass_ok_aux hdr hasRegs mode g.labels code g.stmtOffsets code' 0 none [] g hg hl hw
 
 /-- once the dummy pass has accepted a script whose labels sit in wide parameters, the rest of
-the lowering does not panic (formats other than EoSD-PoFV STD) -/
+the lowering does not panic -/
 theorem no_panic_after_gather (hdr : Nat) (hasRegs : Bool) (mode : LabelMode) (code : List LStmt) (g : Gather)
-    (hg : gatherLabelInfo hdr hasRegs code = .ok g) (hm : mode ≠ .index20)
+    (hg : gatherLabelInfo hdr hasRegs code = .ok g)
     (hw : ∀ s ∈ code, wideStmt s = true) (p : String) : lowerTail hdr hasRegs mode code ≠ .panic p := by
   intro h
   simp only [lowerTail, hg] at h
@@ -1576,7 +1537,7 @@ theorem no_panic_after_gather (hdr : Nat) (hasRegs : Bool) (mode : LabelMode) (c
     rw [hr] at h
     cases h
   | err c => rw [hl] at h; cases h
-  | panic q => exact encodeLabels_no_panic hdr hasRegs mode code g q hg hm hl
+  | panic q => exact encodeLabels_no_panic hdr hasRegs mode code g q hg hl
 
 example : ∀ s ∈ sample, wideStmt s = true := by decide
 example : ¬ ∀ s ∈ narrowWitness, wideStmt s = true := by decide
